@@ -92,3 +92,17 @@ Print Assumptions C12_compute_brokers_refuted.
 (* the hypotheses are satisfiable *)
 Example C12_nonvacuous : wf lay_e pts_e q_e /\ answer lay_e pts_e q_e ([], 0%nat, 1%nat, 0) = Some 13.
 Proof. split; [exact lay_e_wf|exact (proj1 lay_e_answers)]. Qed.
+
+(* order by <field> [desc] limit n: the heap the root pushes the groups into keeps the n best rows whatever the order
+   of the pushes (the iteration order of a Go map), when the ranks are pairwise different *)
+From LinDBV.C12 Require Import TopN.
+Theorem C12_topn_order_irrelevant n desc rows rows' : distinct rows -> Permutation rows rows' ->
+  Permutation (topn n desc rows) (topn n desc rows').
+Proof. exact (topn_order_irrelevant n desc rows rows'). Qed.
+Print Assumptions C12_topn_order_irrelevant.
+
+Theorem C12_topn_is_best n desc rows : distinct rows ->
+  length (topn n desc rows) = Nat.min n (length rows) /\ incl (topn n desc rows) rows /\
+  forall r k, In r rows -> ~ In r (topn n desc rows) -> In k (topn n desc rows) -> better desc k r = true.
+Proof. exact (topn_is_best n desc rows). Qed.
+Print Assumptions C12_topn_is_best.
